@@ -44,7 +44,7 @@ def interpret(script):
             out += lcg(state, n)[1]
         elif st[0] == "i":
             continue
-        elif st[0] == "e":
+        elif st[0] in ("e", "eg"):
             return bytes(out), ("io", st[1])
         elif st[0] == "lie":
             return bytes(out), ("lie",)
@@ -60,8 +60,8 @@ def fmt(v, script):
             toks += ["gen", str(st[1]), str(st[2]), str(st[3])]
         elif st[0] == "i":
             toks.append("i")
-        elif st[0] == "e":
-            toks += ["e", st[1]]
+        elif st[0] in ("e", "eg"):
+            toks += [st[0], st[1]]
         elif st[0] == "lie":
             toks += ["lie", str(st[1])]
     return "stream %s %s" % (v, " ".join(toks))
@@ -206,6 +206,11 @@ def run(ctx):
     corpus = [("N", [("d", bytes((i * 7) % 251 for i in range(100))), ("i",), ("d", bytes((i * 7) % 251 for i in range(100))),
                      ("d", bytes((i * 7) % 251 for i in range(100)))])]
     small = corpus + small_scripts(rng, ctx.tier)
+    # hard errors whose payload is a GeneratorError value (a reader forwarding a nested hashing failure as its own I/O error)
+    for v in VNAMES:
+        d = bytes((i * 13) % 251 for i in range(300))
+        for kind in ("InvalidData", "Other", "TimedOut"):
+            small += [(v, [("eg", kind)]), (v, [("d", d), ("eg", kind)]), (v, [("d", d[:7]), ("i",), ("eg", kind), ("d", d)])]
     cases = [fmt(v, sc) for v, sc in small]
     nt = lambda c, i: not i.startswith("generr TooSmall")
     rows = ctx.correspond("STREAM", cases, hb, db, flags=fl, coq_sample=8, nontrivial=nt)
